@@ -19,8 +19,18 @@ def run(pid, repo, work):
         for n in sorted(os.listdir(sd)):
             meta = os.path.join(sd, n, "meta.json")
             pf = os.path.join(sd, n, "patch.diff")
-            if os.path.exists(meta) and os.path.exists(pf) and json.load(open(meta)).get("property") == pid:
-                ms.append({"name": "seed:" + n, "patch": pf, "expect": [pid]})
+            # a seed whose lines were touched by a later fix: commit is kept in a form re-based onto the repaired tree
+            if os.path.exists(os.path.join(sd, n, "patch_rebased.diff")):
+                pf = os.path.join(sd, n, "patch_rebased.diff")
+            if os.path.exists(meta) and os.path.exists(pf):
+                md = json.load(open(meta))
+                if md.get("property") != pid:
+                    continue
+                if md.get("expect_silent_on_current_tree"):
+                    # made harmless by a later repair: the check must stay silent on it
+                    ms.append({"name": "seed:" + n, "patch": pf, "harmless": True})
+                else:
+                    ms.append({"name": "seed:" + n, "patch": pf, "expect": [pid]})
     # behaviour-preserving corpora: the check must stay silent on every one of them
     hr = os.path.join(VERIF, "mutants", "refactors.json")
     if os.path.exists(hr):
@@ -37,6 +47,9 @@ def run(pid, repo, work):
     tmp = os.path.join(VERIF, ".work", "thorough-%s-mutants.json" % pid)
     for m in ms:
         m["props"] = [pid]
+        if m.get("expect"):
+            # only this property's check is run on the scratch copy
+            m["expect"] = [pid]
     json.dump(ms, open(tmp, "w"))
     r = subprocess.run([sys.executable, os.path.join(VERIF, "tools", "mutants.py"), "--file", tmp, "--json", out, "--jobs", "6"],
                        capture_output=True, text=True)
